@@ -69,6 +69,8 @@ class AbstractDomain:
             "bounding_box": self._bounding_box,
         }
         obj.f["__abstract__"] = self
+        obj.f["__overrides__"]["__call__"] = self._partial
+        self.parent, self.fixed = None, {}
         self.obj = obj
         self.is_boundary = is_boundary
         if is_boundary:
@@ -80,7 +82,50 @@ class AbstractDomain:
 
     # ---- helpers
     def in_pred(self, xs, ps):
+        if self.parent is not None:
+            # a partially evaluated domain denotes the parent at the fixed values (contract of Domain.__call__)
+            ps = list(ps)
+            full, p = [], 0
+            for nm, dm in self.parent.param_dims.items():
+                if nm in self.fixed:
+                    full += self.fixed[nm]
+                else:
+                    full += ps[p : p + dm]
+                    p += dm
+            return self.parent.in_pred(xs, full)
         return self.In(*(list(xs) + list(ps)))
+
+    def _partial(self, I, selfobj, **data):
+        """contract of Domain.__call__(**data): a NEW domain that denotes this one at the given values,
+        still depending on the remaining variables; this domain is unchanged"""
+        rest = {nm: dm for nm, dm in self.param_dims.items() if nm not in data}
+        new = AbstractDomain(self.S, self.name + "_at", self.space, rest, is_boundary=False)
+        new.parent = self
+        new.fixed = {}
+        for nm, dm in self.param_dims.items():
+            if nm in data:
+                v = lift(data[nm])
+                z = [tuple(0 for _ in d.factors) for d in v.shape[:-1]]
+                new.fixed[nm] = [zreal(v.at(z + [(k,) if dm != 1 else ()])) for k in range(dm)]
+        new.Vol = (lambda *ps, _s=self, _n=new: _s.vol_term(_n._full(list(ps))))
+        new.boundary
+        self.partial_calls = getattr(self, "partial_calls", []) + [(data, new)]
+        return new.obj
+
+    def _full(self, ps):
+        full, p = [], 0
+        for nm, dm in self.parent.param_dims.items():
+            if nm in self.fixed:
+                full += self.fixed[nm]
+            else:
+                full += ps[p : p + dm]
+                p += dm
+        return full
+
+    def vol_term(self, ps):
+        if self.parent is not None:
+            return self.parent.vol_term(self._full(list(ps)))
+        return self.Vol(*ps) if self.param_dims else self.Vol
 
     def param_terms(self, I, sources, row_of):
         """list of real terms for the declared parameter variables, by NAME, at the given row"""
@@ -197,14 +242,14 @@ class AbstractDomain:
             params = I.call(I.getattr(I.repo.find(POINTS), "empty"), [])
         pc = coords_of(I, params)
         if not self.param_dims:
-            v = self.Vol
+            v = self.vol_term([])
             I.ctx.axiom(v > 0)
             return Tensor(STensor([Dim([]), Dim([])], lambda idx: v, "real"))
         rows = params.f["_t"].val.shape[0]
 
         def fn(idx):
             ps = self.param_terms(I, [pc], [[idx[0]]])
-            v = self.Vol(*ps)
+            v = self.vol_term(ps)
             I.ctx.axiom(v > 0)
             return v
 
